@@ -8,7 +8,7 @@ use crate::engine::{Ctx, Outcome, Property, Tier};
 use crate::ensure;
 use crate::gen::{self, Payload, ReadPlan};
 use crate::refhttp::resp::{build_response, Framing};
-use crate::transport::{strat::seg, Seg};
+use crate::transport::{strat::seg, Ev, Seg};
 
 #[derive(Debug, Clone, Serialize, Deserialize)]
 pub enum Trailing {
@@ -27,6 +27,10 @@ pub struct Case {
     pub reads: ReadPlan,
     pub after_eof: Vec<usize>,
     pub neutral_headers: u8,
+    /// transient transport errors (position fraction of the wire, kind: 0 timed out, 1 would block, 2 interrupted) after
+    /// which the stream goes on and the caller keeps reading: no wrong byte and no false end of body may result
+    #[serde(default)]
+    pub hiccups: Vec<(u16, u8)>,
 }
 
 pub struct C01;
@@ -51,6 +55,99 @@ pub fn neutral_headers(n: u8) -> Vec<(String, Vec<u8>)> {
         .take(n as usize % 5)
         .map(|(k, v)| (k.to_string(), v.as_bytes().to_vec()))
         .collect()
+}
+
+/// The response is intact but the transport reports transient errors (a read timeout, an interrupted call) in between and
+/// the caller reads on: the reader may fail for good, but it may never hand out a wrong byte or a false end of body.
+fn hiccup_check(case: &Case, payload: &[u8], wire: &[u8], events: Vec<Ev>, ctx: &mut Ctx) -> Outcome {
+    use std::io::Read;
+    let mut events = events;
+    // head must arrive intact: hiccups are placed in the body part only
+    let head_end = wire.windows(4).position(|w| w == b"\r\n\r\n").map(|p| p + 4).unwrap_or(0);
+    for (f, k) in &case.hiccups {
+        let off = head_end + (((*f as usize) * (wire.len() - head_end + 1)) >> 16);
+        let kind = [std::io::ErrorKind::TimedOut, std::io::ErrorKind::WouldBlock, std::io::ErrorKind::Interrupted][*k as usize % 3];
+        // split the data event containing `off`
+        let mut out = vec![];
+        let mut pos = 0;
+        let mut done = false;
+        for ev in events {
+            match ev {
+                Ev::Data(d) if !done && pos + d.len() >= off && off >= pos => {
+                    let cut = off - pos;
+                    if cut > 0 {
+                        out.push(Ev::Data(d[..cut].to_vec()));
+                    }
+                    out.push(Ev::Err(kind));
+                    if cut < d.len() {
+                        out.push(Ev::Data(d[cut..].to_vec()));
+                    }
+                    pos += d.len();
+                    done = true;
+                }
+                Ev::Data(d) => {
+                    pos += d.len();
+                    out.push(Ev::Data(d));
+                }
+                other => out.push(other),
+            }
+        }
+        events = out;
+    }
+    events.push(Ev::Eof);
+    let (res, _net, _guard) = get_scripted(events, |rb| rb);
+    let mut resp = match res {
+        Ok(r) => r,
+        Err(e) => return Outcome::fail("C01:send-failed", format!("send() failed although the head arrived intact: {e:?}")),
+    };
+    let sizes: Vec<usize> = match &case.reads {
+        ReadPlan::Sizes(s) | ReadPlan::Split(s) => crate::gen::effective_sizes(s, payload.len()),
+        _ => vec![4096],
+    };
+    let mut delivered: Vec<u8> = vec![];
+    let mut buf = vec![0u8; sizes.iter().copied().max().unwrap_or(1).max(1)];
+    let mut errors = 0;
+    let mut clean = false;
+    let mut i = 0;
+    for _ in 0..(16 * payload.len() + 100_000) {
+        let sz = sizes[i % sizes.len()];
+        i += 1;
+        match resp.read(&mut buf[..sz]) {
+            Ok(0) if sz > 0 => {
+                clean = true;
+                break;
+            }
+            Ok(n) => {
+                delivered.extend_from_slice(&buf[..n]);
+                if !payload.starts_with(&delivered) {
+                    return Outcome::fail(
+                        format!("C01:wrong-bytes-after-transient-error:{}", case.framing.name()),
+                        format!("after a transient transport error the caller read on and received bytes that are not the payload: {}", first_diff(&delivered, payload)),
+                    );
+                }
+            }
+            Err(_) => {
+                errors += 1;
+                if errors > 6 {
+                    break;
+                }
+            }
+        }
+    }
+    if clean && delivered != payload && !matches!(case.framing, Framing::Close) {
+        return Outcome::fail(
+            format!("C01:false-end-after-transient-error:{}", case.framing.name()),
+            format!("end of body reported after {} of {} payload bytes", delivered.len(), payload.len()),
+        );
+    }
+    if matches!(case.framing, Framing::Close) && clean && !payload.starts_with(&delivered) {
+        return Outcome::fail("C01:wrong-bytes-after-transient-error:close", first_diff(&delivered, payload));
+    }
+    ctx.nontrivial = !payload.is_empty();
+    ctx.label("transient-transport-error");
+    ctx.label_if(errors > 0, "transient-error-surfaced");
+    ctx.label_if(clean && delivered == payload, "completed-despite-transient-error");
+    Outcome::Pass
 }
 
 impl Property for C01 {
@@ -87,8 +184,9 @@ segmentation x caller read plan), run through send() on a scripted transport; no
             gen::read_plan(),
             proptest::collection::vec(gen::read_size(), 0..4),
             0u8..5,
+            prop_oneof![5 => Just(vec![]), 1 => proptest::collection::vec((any::<u16>(), 0u8..3), 1..3)],
         )
-            .prop_map(|(payload, framing, hdr_style, trailing, seg, reads, after_eof, neutral_headers)| Case {
+            .prop_map(|(payload, framing, hdr_style, trailing, seg, reads, after_eof, neutral_headers, hiccups)| Case {
                 payload,
                 framing,
                 hdr_style,
@@ -97,6 +195,7 @@ segmentation x caller read plan), run through send() on a scripted transport; no
                 reads,
                 after_eof,
                 neutral_headers,
+                hiccups,
             })
             .boxed()
     }
@@ -114,8 +213,12 @@ segmentation x caller read plan), run through send() on a scripted transport; no
                 }
             }
         }
-        let events = case.seg.split(&built.wire, &built.structural);
+        let mut events = case.seg.split(&built.wire, &built.structural);
         let nseg = events.len();
+        if !case.hiccups.is_empty() {
+            return hiccup_check(case, &payload, &built.wire, events, ctx);
+        }
+        let _ = &mut events;
         let nchunks = built.chunks.len();
 
         let (res, net, _guard) = get_scripted(events, |rb| rb);
